@@ -73,6 +73,69 @@ pub fn tree_exh(s: &mut Sink, n: usize, nl: usize, len: usize, budgets: bool) {
     }
 }
 
+/// all level assignments (nl^n) x all insertion orders (n!) of n distinct keys, each inserted once; with
+/// `hash` a single hash request is additionally inserted at every position (n+1 variants + the plain one)
+pub fn tree_perm(s: &mut Sink, n: usize, nl: usize, hash: bool, final_hash_update: bool) {
+    // permutations of 0..n in lexicographic order
+    fn perms(n: usize) -> Vec<Vec<usize>> {
+        let mut out = vec![];
+        let mut p: Vec<usize> = (0..n).collect();
+        loop {
+            out.push(p.clone());
+            // next permutation
+            let mut i = n.wrapping_sub(1);
+            while i > 0 && p[i - 1] >= p[i] {
+                i -= 1;
+            }
+            if i == 0 || n == 0 {
+                break;
+            }
+            let mut j = n - 1;
+            while p[j] <= p[i - 1] {
+                j -= 1;
+            }
+            p.swap(i - 1, j);
+            p[i..].reverse();
+        }
+        out
+    }
+    let ps = perms(n);
+    for li in 0..nl.pow(n as u32) {
+        let mut lv = vec![0u32; n];
+        let mut x = li;
+        for l in lv.iter_mut() {
+            *l = (x % nl) as u32;
+            x /= nl;
+        }
+        let ks = keys_str(&lv, 16, 16);
+        for p in &ps {
+            let variants = if hash { n + 2 } else { 1 };
+            for hv in 0..variants {
+                if !s.mine() {
+                    s.skip();
+                    continue;
+                }
+                let mut ops: Vec<String> = vec![];
+                for (i, k) in p.iter().enumerate() {
+                    if hash && hv == i + 1 {
+                        ops.push("h".into());
+                    }
+                    ops.push(format!("u{}:01", k));
+                }
+                if hash && hv == n + 1 {
+                    ops.push("h".into());
+                }
+                if final_hash_update && n > 0 {
+                    // re-upsert the first inserted key with a new value after a hash (update path + invalidation)
+                    ops.push("h".into());
+                    ops.push(format!("u{}:02", p[0]));
+                }
+                s.emit(&format!("T 16 16 {} {}", ks, ops.join(",")));
+            }
+        }
+    }
+}
+
 fn rand_bytes(r: &mut Rng, n: usize) -> Vec<u8> {
     (0..n).map(|_| r.below(256) as u8).collect()
 }
@@ -110,7 +173,7 @@ pub fn rand_keys(r: &mut Rng, nkeys: usize) -> RandTree {
         2 => *r.pick(&[1u32, 3, 4, 7, 255, 128, 17]),
         _ => 1 + r.below(255) as u32,
     };
-    let w = *r.pick(&[1usize, 2, 3, 8, 16, 16, 32]);
+    let w = *r.pick(&[1usize, 2, 3, 4, 8, 16, 16, 32]);
     let pz = *r.pick(&[10u64, 30, 50]);
     // distinct key byte strings in ascending lexicographic order (variable length, may include the empty key)
     let mut set = std::collections::BTreeSet::new();
@@ -119,7 +182,14 @@ pub fn rand_keys(r: &mut Rng, nkeys: usize) -> RandTree {
     let mut guard = 0;
     while set.len() < nkeys && guard < nkeys * 50 {
         guard += 1;
-        let l = if fixed { flen.max(2) } else { r.below(5) as usize };
+        // mostly short keys; one in eight is long (up to ~130 bytes: longer than any internal staging buffer)
+        let l = if r.chance(1, 8) {
+            30 + r.below(100) as usize
+        } else if fixed {
+            flen.max(2)
+        } else {
+            r.below(5) as usize
+        };
         set.insert(rand_bytes(r, l));
     }
     let keys: Vec<String> =
